@@ -244,7 +244,7 @@ pub fn generate(rng: &mut Rng, fault_free: bool) -> K17 {
     // frame), so it only runs in the thorough tier; the compass sweep is cheap enough for quick.
     // (VERIF_C17_MODE=sweep|compass forces a mode for every faulted run: debugging aid)
     let forced = std::env::var("VERIF_C17_MODE").unwrap_or_default();
-    let sweep = if !fault_free && ((simcore::deep() && rng.chance(0.004)) || forced == "sweep") { 34_000 + rng.usize_below(3_000) } else { 0 };
+    let sweep = if !fault_free && ((simcore::deep() && rng.chance(0.0006)) || forced == "sweep") { 34_000 + rng.usize_below(3_000) } else { 0 };
     let compass = if !fault_free && sweep == 0 && (rng.chance(0.003) || forced == "compass") { 18_000 } else { 0 };
     if sweep > 0 || compass > 0 {
         let total = if sweep > 0 { sweep as u64 } else { compass as u64 + 3 };
